@@ -169,8 +169,7 @@ Print Assumptions C04_update_statepoint_no_overwrite.
    statepoint, cached_statepoint and document of the new job.
    PROVED (in C04_rekey_ok) for every handle in the cell's _jobs list: id, project (hence path and document
    file), cached_statepoint; statepoint is the shared cell.  C04_handles_follow_example runs it.
-   REFUTED for the code as it is: a copy.copy taken before the state point was ever accessed is not in
-   _jobs and does not follow (known finding, tag 2). *)
+   Since fix 0894ce6 every copy.copy is in _jobs (C04_copy_shares_cell below). *)
 Theorem C04_handles_follow_example :
   let old := JObj [(kA, JInt 0)] in let new := JObj [(kA, JInt 1)] in
   run wfr w0 0 [ONewSession wA; OOpenSp 0 old; OInit 0 false; OCopy 0; OEdit 0 [] (ESetKey kA (JInt 1));
@@ -180,15 +179,25 @@ Theorem C04_handles_follow_example :
 Proof. exact follow_example. Qed.
 Print Assumptions C04_handles_follow_example.
 
-Theorem C04_handles_follow_early_copy_refuted :
+(* copies made at ANY time follow (fix 0894ce6): copy.copy instantiates the original's state point first, shares the
+   cell and registers itself in its _jobs, so the "every handle in _jobs" clauses of C04_rekey_ok apply to it *)
+Theorem C04_copy_shares_cell : forall frepr w h w' hj,
+  (h < length (w_hs w))%nat -> copy_handle frepr w h = (w', inl hj) ->
+  exists ci, h_cell (getH w' h) = Some ci /\ h_cell (getH w' hj) = Some ci /\
+             h_id (getH w' hj) = h_id (getH w' h) /\ h_s (getH w' hj) = h_s (getH w' h) /\
+             (ci < length (w_cs w') -> In hj (c_jobs (getC w' ci))).
+Proof. exact copy_shares_cell. Qed.
+Print Assumptions C04_copy_shares_cell.
+
+Theorem C04_handles_follow_early_copy_example :
   let old := JObj [(kA, JInt 0)] in let new := JObj [(kA, JInt 1)] in
   run wfr w0 0 [ONewSession wA; OOpenSp 0 old; OInit 0 false; ONewSession wA; OOpenId 1 (calc_id wfr old);
-                OCopy 1; OEdit 1 [] (ESetKey kA (JInt 1)); OIdPath 1; OIdPath 2]
+                OCopy 1; OEdit 1 [] (ESetKey kA (JInt 1)); OIdPath 1; OIdPath 2; OSp 2; OCached 2]
   = [VUnit; VStr (calc_id wfr old); VUnit; VUnit; VStr (calc_id wfr old); VStr (calc_id wfr old); VUnit;
      VIdPath (calc_id wfr new) (wA ++ [WS; calc_id wfr new]);
-     VIdPath (calc_id wfr old) (wA ++ [WS; calc_id wfr old])].
-Proof. exact early_copy_witness. Qed.
-Print Assumptions C04_handles_follow_early_copy_refuted.
+     VIdPath (calc_id wfr new) (wA ++ [WS; calc_id wfr new]); VJson new; VJson new].
+Proof. exact early_copy_example. Qed.
+Print Assumptions C04_handles_follow_early_copy_example.
 
 (* ---- "whenever the state point changes by ANY route the job reappears under the new id": refuted for
    whole assignment / update_statepoint when the change compares == in Python (SyncedDict._update; tag 3) *)
